@@ -680,3 +680,18 @@ package syntax
 //@   loop 1 invariant len(scopeComments) + len(nodeComments) + len(comments) == len(comments0) && len(comments) >= 0 && len(comments) <= len(comments0)
 //@   loop 1 invariant base(comments) == base(comments0) && off(comments) + len(comments) == off(comments0) + len(comments0)
 //@   loop 2 invariant 0 <= iter && iter <= len(nodeComments) && len(node.Comments) == iter && len(node.scopeComments) + len(nodeComments) + len(comments) == len(comments0)
+
+// ---------------------------------------------------------------- C07 every binding a wildcard expands to is type-checked
+// compileWildcard: each synthesized binding that is appended to the call's binding list has been
+// through BindStms.addBinding (addb[0] counts the calls), which resolves the reference and
+// checks that its type - with the array/map dimensions the wildcard stripped to find the struct -
+// can be converted to the parameter's.
+//@ func syntax.BindStms.addBinding property C07
+//@   trusted
+//@   modifies ghost(addb), mapof(bindings.Table)
+//@   ensures ghost(addb)[0] == old(ghost(addb)[0]) + 1
+//@ func syntax.BindStms.compileWildcard property C07
+//@   requires bindings != nil && binding != nil && global != nil && pipeline != nil && pipeline.InParams != nil
+//@   ensures @allchecked len(bindings.List) - old(len(bindings.List)) == ghost(addb)[0] - old(ghost(addb)[0])
+//@   loop 1 invariant len(bindings.List) - old(len(bindings.List)) == ghost(addb)[0] - old(ghost(addb)[0])
+//@   loop 2 invariant len(bindings.List) - old(len(bindings.List)) == ghost(addb)[0] - old(ghost(addb)[0])
